@@ -208,6 +208,28 @@ impl Hist {
         }
     }
 
+    /// install / remove triggers that make every write to the `tasks` table of replica r's SQLite
+    /// file fail (through a second connection); false if the replica is not on SQLite
+    fn sqlite_triggers(&mut self, r: usize, on: bool) -> bool {
+        let path = match &self.slots[r]._dir {
+            Some(d) => d.path().join("taskchampion.sqlite3"),
+            None => return false,
+        };
+        let con = match rusqlite::Connection::open(&path) {
+            Ok(c) => c,
+            Err(_) => return false,
+        };
+        let _ = con.busy_timeout(std::time::Duration::from_secs(5));
+        let sql = if on {
+            "CREATE TRIGGER IF NOT EXISTS tch_f1 BEFORE INSERT ON tasks BEGIN SELECT RAISE(ABORT, 'injected-fault'); END;
+             CREATE TRIGGER IF NOT EXISTS tch_f2 BEFORE UPDATE ON tasks BEGIN SELECT RAISE(ABORT, 'injected-fault'); END;
+             CREATE TRIGGER IF NOT EXISTS tch_f3 BEFORE DELETE ON tasks BEGIN SELECT RAISE(ABORT, 'injected-fault'); END;"
+        } else {
+            "DROP TRIGGER IF EXISTS tch_f1; DROP TRIGGER IF EXISTS tch_f2; DROP TRIGGER IF EXISTS tch_f3;"
+        };
+        con.execute_batch(sql).is_ok()
+    }
+
     fn stat(&mut self, k: &str) {
         *self.stats.entry(k.to_string()).or_insert(0) += 1;
     }
@@ -477,9 +499,15 @@ impl Hist {
                     "after" => (Some((idx, FaultKind::After)), None),
                     "storage" => (None, Some((idx, true))),
                     "storage-error" => (None, Some((idx, false))),
+                    // SQLite only: the backend itself fails every write to the tasks table
+                    "sqlite-abort" => (None, None),
                     _ => return bad(),
                 };
+                let trig = *kind == "sqlite-abort" && self.sqlite_triggers(r, true);
                 let (out, committed) = self.sync_whole(r, *avoid == "1", urg, fault, sfail);
+                if trig {
+                    self.sqlite_triggers(r, false);
+                }
                 self.stat(&format!("fault_{}", kind));
                 let aborted = out.last().map(|l| l == "sync aborted").unwrap_or(false);
                 if aborted {
@@ -587,7 +615,7 @@ pub fn gen_case(rng: &mut Rng, cfg: &GenCfg) -> (usize, u64, Vec<String>) {
     let keys = ["k", "description", "p\"q\\\n", "é✓"];
     let vals = ["", "v", "w", "long value with spaces", "\u{1F600}\u{7}", "x"];
     let times: Vec<(i64, u32)> = vec![(100, 0), (100, 0), (200, 500), (50, 123000000), (1700000000, 999999999), (200, 500)];
-    let big = rng.chance(1, 25);
+    let big = rng.chance(1, if cfg.stepped { 8 } else { 25 });
     let len = 3 + rng.below(cfg.max_len as u64 - 2) as usize;
     let mut lines = vec![format!("R {}", nreps)];
     let mut stepping: Vec<bool> = vec![false; nreps];
@@ -630,6 +658,22 @@ pub fn gen_case(rng: &mut Rng, cfg: &GenCfg) -> (usize, u64, Vec<String>) {
             }
             continue;
         }
+        if cfg.stepped && rng.chance(1, 12) {
+            // a race: r pulls to the tip, another replica's version lands, r's push is rejected
+            let q = (r + 1 + rng.below(nreps as u64 - 1) as usize) % nreps;
+            if !stepping[q] {
+                let (s, n) = *rng.pick(&times);
+                lines.push(format!("C {} update {} {} {} {} {}", r, u, gen_str(rng, &keys), gen_str(rng, &vals), s, n));
+                lines.push(format!("C {} update {} {} {} {} {}", q, u, gen_str(rng, &keys), gen_str(rng, &vals), s, n));
+                lines.push(format!("B {} 0", r));
+                for _ in 0..(1 + rng.below(4)) {
+                    lines.push(format!("T {} n", r));
+                }
+                lines.push(format!("S {} 0 n", q));
+                stepping[r] = true;
+                continue;
+            }
+        }
         if roll < 18 {
             lines.push(format!("C {} create {}", r, u));
         } else if roll < 58 {
@@ -669,7 +713,7 @@ pub fn gen_case(rng: &mut Rng, cfg: &GenCfg) -> (usize, u64, Vec<String>) {
                 lines.push(format!("B {} {}", r, avoid));
                 stepping[r] = true;
             } else if cfg.faults && rng.chance(1, 3) {
-                let kind = *rng.pick(&["before", "after", "storage", "storage", "storage-error"]);
+                let kind = *rng.pick(&["before", "after", "storage", "storage", "storage-error", "sqlite-abort"]);
                 let idx = if kind.starts_with("storage") { 1 + rng.below(40) } else { 1 + rng.below(6) };
                 lines.push(format!("F {} {} {} 0 {} {}", r, avoid, urg, kind, idx));
                 lines.push("Q".to_string());
@@ -714,7 +758,7 @@ fn permutations(n: usize) -> Vec<Vec<usize>> {
 pub fn gen_conflict_group(rng: &mut Rng) -> Vec<(String, usize, Vec<String>)> {
     let nreps = 2 + rng.below(2) as usize;
     let keys = ["p", "q"];
-    let vals = ["x", "y", "x", ""];
+    let vals = ["x", "y", "x", "", "old"];
     let times: [(i64, u32); 4] = [(100, 0), (100, 0), (200, 0), (100, 5)];
     let mut setup = vec![format!("R {}", nreps)];
     // task 1 exists everywhere (sometimes with a value), task 2 exists nowhere yet
@@ -767,7 +811,7 @@ pub fn gen_conflict_group(rng: &mut Rng) -> Vec<(String, usize, Vec<String>)> {
                 lines.push(format!("S {} 0 n", r));
             }
         }
-        out.push((format!("perm={}", pi), nreps, lines));
+        out.push((format!("perm={} setup={} pend={}", pi, setup.len(), pending.len()), nreps, lines));
     }
     out
 }
